@@ -18,6 +18,8 @@ from __future__ import absolute_import
 #    You should have received a copy of the GNU General Public License
 #    along with this program.  If not, see <http://www.gnu.org/licenses/>.
 
+import copy
+
 from mingus.containers.mt_exceptions import InstrumentRangeError, UnexpectedObjectError
 from mingus.containers.note_container import NoteContainer
 from mingus.containers.bar import Bar
@@ -119,6 +121,8 @@ class Track(object):
                     # This should be the standard behaviour of add_notes
                     dur = self.bars[-1].value_left()
                     self.add_notes(chord, dur)
+                    # the part after the bar line is a separate entry with its own notes
+                    chord = copy.deepcopy(chord)
 
                     # warning should hold note
                     duration = value.subtract(duration, dur)
